@@ -49,6 +49,44 @@ theorem spec_find_live (s : S) (now : Int) (c : String) (a : Ann) :
     a ∈ C06Spec.find s now c ↔ a ∈ s c ∧ now < a.exp := by
   simp [C06Spec.find, liveAt]
 
+/-! ### what the abstract directory says (sanity of the specification) -/
+
+/-- an announcement that needs no cut: afterwards the chunk's live announcements are the new one
+    (if its expiry lies in the future) and the live announcements of the *other* peers -/
+theorem spec_add_find (s : S) (now : Int) (c p : String) (e : Int) (keep : Option (List String))
+    (h : ((specBase s now c p e).filter (liveAt now)).length ≤ 20) (a : Ann) :
+    a ∈ C06Spec.find (C06Spec.add s now c p e keep).1 now c ↔
+      (a = ⟨p, e⟩ ∧ now < e) ∨ (a ∈ C06Spec.find s now c ∧ a.peer ≠ p) := by
+  unfold C06Spec.find
+  rw [(spec_add_small s now c p e keep h).1]
+  simp only [specBase, filter_append, mem_append, mem_filter, liveAt, decide_eq_true_eq, mem_singleton,
+    Bool.and_eq_true, bne_iff_ne, ne_eq]
+  constructor
+  · rintro (⟨⟨h1, h2, _⟩, h4⟩ | ⟨rfl, h2⟩)
+    · exact Or.inr ⟨⟨h1, h4⟩, h2⟩
+    · exact Or.inl ⟨rfl, h2⟩
+  · rintro (⟨rfl, h2⟩ | ⟨⟨h1, h2⟩, h3⟩)
+    · exact Or.inr ⟨rfl, h2⟩
+    · exact Or.inl ⟨⟨h1, h3, h2⟩, h2⟩
+
+/-- an announcement never touches another chunk -/
+theorem spec_add_other_chunk (s : S) (now : Int) (c p : String) (e : Int) (keep : Option (List String))
+    (c' : String) (h : c' ≠ c) (now' : Int) :
+    C06Spec.find (C06Spec.add s now c p e keep).1 now' c' = C06Spec.find s now' c' := by
+  unfold C06Spec.find; rw [spec_add_other _ _ _ _ _ _ _ h]
+
+/-- a withdrawal removes exactly that peer's announcement for that chunk -/
+theorem spec_withdraw_find (s : S) (c p : String) (now : Int) (c' : String) (a : Ann) :
+    a ∈ C06Spec.find (C06Spec.withdraw s c p) now c' ↔
+      a ∈ C06Spec.find s now c' ∧ (c' = c → a.peer ≠ p) := by
+  unfold C06Spec.find C06Spec.withdraw C06Spec.set
+  by_cases h : c' = c
+  · subst h
+    simp only [if_true, mem_filter, bne_iff_ne, ne_eq, forall_const]
+    constructor
+    · rintro ⟨⟨h1, h2⟩, h3⟩; exact ⟨⟨h1, h3⟩, h2⟩
+    · rintro ⟨⟨h1, h3⟩, h2⟩; exact ⟨⟨h1, h2⟩, h3⟩
+  · simp [h]
 /-! ### sweeps -/
 
 /-- **A sweep removes exactly the expired holders** of every chunk, in every reachable state:
